@@ -29,6 +29,17 @@ def _promoting_scalar(args, kwargs, names):
     return rt != tens[0].dtype
 
 
+def _equal_at_f32(got, exp, loose):
+    import numpy as np
+
+    def down(x):
+        if isinstance(x, (list, tuple)):
+            return [down(y) for y in x]
+        x = np.asarray(x)
+        return x.astype(np.float32) if x.dtype == np.float64 else x
+    return runeq.compare(down(got), down(exp), loose=loose) is None
+
+
 def run_case(case, fam):
     """-> (verdict, info) verdict in ok | skip:<reason> | <kind> (dtype|shape|value|structure|trace-fails|
     invalid-graph|run-fails)"""
@@ -102,6 +113,10 @@ def run_case(case, fam):
     d = runeq.compare(shape_up(outs), exp, loose=loose)
     if d is None:
         return "ok", engine
+    if engine == "ref" and K.classify_diff(d) == "value" and _equal_at_f32(shape_up(outs), exp, loose):
+        # onnx.reference evaluates several ops (Erf, HardSwish, Celu ...) through float32 even for double
+        # inputs: a float64 difference below float32 resolution says nothing about torchlib
+        return "skip:reference-evaluator-computes-in-f32", d
     if engine == "ort":
         # arbitration: a disagreement that the reference evaluator does not share is an ORT defect
         # (e.g. ReduceSum over an empty tensor with a negative axis keeps the axis), not torchlib's
